@@ -131,6 +131,22 @@ def mkstr(f, h):
     return b.decode('utf-8') if f == 's' else b
 
 
+def huffval(tok, ann):
+    """the `huffman` argument: a bool, or (annotation huffkind=…) another object with the same truth value, as it arrives
+    from a configuration file or a keyword default"""
+    on = tok == '1'
+    k = ann.get('huffkind')
+    if k == 'str':
+        return 'on' if on else ''
+    if k == 'int':
+        return 1 if on else 0
+    if k == 'list':
+        return [0] if on else []
+    if k == 'none':
+        return True if on else None
+    return on
+
+
 def parse_form(s):
     k, n, v = s.split(':')
     if k[0] == '2':
@@ -158,6 +174,22 @@ class AppHeader(HeaderTuple):
 
 class AppSecretHeader(NeverIndexedHeaderTuple):
     __slots__ = ()
+
+
+if os.environ.get('HPACK_VERIF_HDRKIND') == 'instance':
+    # ONE application class whose instances decide `indexable` themselves (a policy object, a per-request flag)
+    class _PolicyHeader(HeaderTuple):
+        def __new__(cls, name, value, ix=True):
+            o = super().__new__(cls, name, value)
+            o._ix = ix
+            return o
+        @property
+        def indexable(self):
+            return self._ix
+    def AppHeader(n, v):            # noqa
+        return _PolicyHeader(n, v, True)
+    def AppSecretHeader(n, v):      # noqa
+        return _PolicyHeader(n, v, False)
 
 
 class _DictSub(dict):
@@ -384,7 +416,7 @@ def step(toks, ann):
         if src is None:
             return 'bad-id'
         try:
-            obj = copy.deepcopy(src) if toks[3] == 'deep' else pickle.loads(pickle.dumps(src))
+            obj = copy.deepcopy(src) if toks[3] == 'deep' else (copy.copy(src) if toks[3] == 'shallow' else pickle.loads(pickle.dumps(src)))
         except Exception as ex:
             return canon(ex)
         pool[toks[1]] = obj
@@ -401,7 +433,7 @@ def step(toks, ann):
             if op == 'eenc':
                 hs = [] if toks[3:] == ['-'] else [tuple(x.split(':')) for x in toks[3:]]
                 hs = [(unhex(n), unhex(v), s == '1') for n, v, s in hs]
-                out = e.encode(hs, huffman=(toks[2] == '1'))
+                out = e.encode(hs, huffman=huffval(toks[2], ann))
                 lastout[toks[1]] = bytes(out)
                 return 'ok ' + hx(out) + ' | ' + show_enc(e)
             if op == 'eadd':
@@ -415,7 +447,7 @@ def step(toks, ann):
                             enc.header_table_size = int(t[6:])
                         else:
                             yield parse_form(t)
-                out = e.encode(events(), huffman=(toks[2] == '1'))
+                out = e.encode(events(), huffman=huffval(toks[2], ann))
                 lastout[toks[1]] = bytes(out)
                 return 'ok ' + hx(out) + ' | ' + show_enc(e)
             if op == 'eapi':
@@ -442,7 +474,7 @@ def step(toks, ann):
                         c = tuple(c)
                     elif toks[3] == 'gen':
                         c = (x for x in c)
-                out = e.encode(c, huffman=(toks[2] == '1'))
+                out = e.encode(c, huffman=huffval(toks[2], ann))
                 lastout[toks[1]] = bytes(out)
                 return 'ok ' + hx(out) + ' | ' + show_enc(e)
             return 'ok | ' + show_enc(e)
@@ -462,7 +494,11 @@ def step(toks, ann):
             if op == 'dlimit':
                 d.max_header_list_size = int(toks[2]); return 'ok | ' + show_dec(d)
             if op == 'dsize':
-                d.header_table_size = int(toks[2]); return 'ok | ' + show_dec(d)
+                if ann.get('via') == 'table':      # the application reaches the table itself (what the public setter does)
+                    d.header_table.maxsize = int(toks[2])
+                else:
+                    d.header_table_size = int(toks[2])
+                return 'ok | ' + show_dec(d)
             if op == 'dget':
                 n, v = d.header_table.get_by_index(int(toks[2])); return 'ok ' + hx(n) + ':' + hx(v)
             if op in ('ddec', 'pipe'):
